@@ -82,6 +82,51 @@ pub fn inventory(thorough: bool) -> Report {
             if done { break; }
         }
     }
+    // ---- a requirement on version AND metadata (implemented directly, not through the VersionRequirement blanket impl)
+    {
+        use libherokubuildpack::inventory::version::ArtifactRequirement;
+        struct Req { max: u8, meta: u8 }
+        impl ArtifactRequirement<Tot, u8> for Req { fn satisfies_metadata(&self, m: &u8) -> bool { *m == self.meta } fn satisfies_version(&self, v: &Tot) -> bool { v.0 <= self.max } }
+        impl ArtifactRequirement<Prod, u8> for Req { fn satisfies_metadata(&self, m: &u8) -> bool { *m == self.meta } fn satisfies_version(&self, v: &Prod) -> bool { v.0 <= self.max } }
+        let ch: Vec<(u8, u8)> = { let mut v = vec![]; for ver in 0..3u8 { for m in 0..2u8 { v.push((ver, m)); } } v };
+        for n in 0..=3usize {
+            idx.clear(); idx.resize(n, 0);
+            loop {
+                let mut inv: Inventory<Tot, (), u8> = Inventory::new(); let mut pinv: Inventory<Prod, (), u8> = Inventory::new();
+                for (i, &c) in idx.iter().enumerate() {
+                    inv.push(Artifact { version: Tot(ch[c].0), os: Os::Linux, arch: Arch::Arm64, url: format!("u{i}"), checksum: "x:00".parse::<Sum>().unwrap(), metadata: ch[c].1 });
+                    pinv.push(Artifact { version: Prod(ch[c].0, 0), os: Os::Linux, arch: Arch::Arm64, url: format!("u{i}"), checksum: "x:00".parse::<Sum>().unwrap(), metadata: ch[c].1 });
+                }
+                for max in 0..3u8 { for meta in 0..2u8 {
+                    r.evaluations += 1;
+                    let best: Option<u8> = idx.iter().map(|&c| ch[c]).filter(|(v, m)| *v <= max && *m == meta).map(|(v, _)| v).max();
+                    if idx.iter().filter(|&&c| ch[c].0 <= max).count() >= 2 { r.nontrivial += 1; }
+                    let q = Req { max, meta };
+                    let got = inv.resolve(Os::Linux, Arch::Arm64, &q).map(|a| (a.version.0, a.metadata));
+                    let pgot = pinv.partial_resolve(Os::Linux, Arch::Arm64, &q).map(|a| (a.version.0, a.metadata));
+                    let want = best.map(|v| (v, meta));
+                    let input = format!("artifacts(version,metadata)={:?} requirement: version<={max}, metadata=={meta}", idx.iter().map(|&c| ch[c]).collect::<Vec<_>>());
+                    if got != want { r.violation("resolve", "resolve did not return a maximal artifact among those matching version AND metadata requirement (None only when none matches)", input.clone(), format!("{want:?}"), format!("{got:?}")); }
+                    if pgot != want { r.violation("partial_resolve", "partial_resolve did not return a maximal artifact among those matching version AND metadata requirement (None only when none matches)", input, format!("{want:?}"), format!("{pgot:?}")); }
+                } }
+                let mut p = n; let mut done = n == 0;
+                while p > 0 { p -= 1; idx[p] += 1; if idx[p] < ch.len() { break; } idx[p] = 0; if p == 0 { done = true; } }
+                if done { break; }
+            }
+        }
+    }
+    // ---- the shipped digests: sha256 = 32 bytes, sha512 = 64 bytes, names exact
+    {
+        use sha2::{Sha256, Sha512};
+        for (name, hexlen) in [("sha256", 64usize), ("sha512", 128), ("sha384", 96), ("SHA256", 64), ("sha256", 128), ("sha512", 64), ("sha256", 62), ("sha512", 130), ("sha512", 0)] {
+            let s = format!("{name}:{}", "ab".repeat(hexlen / 2));
+            r.evaluations += 2; r.nontrivial += 2;
+            let (w256, w512) = (name == "sha256" && hexlen == 64, name == "sha512" && hexlen == 128);
+            let (g256, g512) = (s.parse::<Checksum<Sha256>>().is_ok(), s.parse::<Checksum<Sha512>>().is_ok());
+            if g256 != w256 { r.violation("checksum_grammar", "Checksum<Sha256> accepts exactly sha256:<64 hex digits>", format!("{name}:<{hexlen} hex digits>"), format!("{w256}"), format!("{g256}")); }
+            if g512 != w512 { r.violation("checksum_grammar", "Checksum<Sha512> accepts exactly sha512:<128 hex digits>", format!("{name}:<{hexlen} hex digits>"), format!("{w512}"), format!("{g512}")); }
+        }
+    }
     // ---- checksum strings (witness search for the Verus-proved grammar): sha256 needs 64 hex digits
     use libherokubuildpack::inventory::checksum::Digest;
     struct D2; impl Digest for D2 { fn name_compatible(n: &str) -> bool { n == "d2" } fn length_compatible(l: usize) -> bool { l == 2 } }
